@@ -423,8 +423,30 @@ func readChain(w *fix.World, reader []byte, setting config.ColumnEncryptionSetti
 	return out, err
 }
 
-// CheckComponent runs the masking encryptor and the read chain.
+// CheckComponent runs the masking encryptor and the read chain with a setting built in memory.
 func CheckComponent(c Case) (vs hx.Vs, nontrivial bool, classes []string) {
+	return checkMasked(c, "component", func(vs *hx.Vs, window int) (config.ColumnEncryptionSetting, string, string) {
+		setting, err := maskSetting(c.Pattern, window, c.Side, c.Envelope)
+		if err != nil {
+			vs.Add("harness:setting", "%v", err)
+			return nil, "", ""
+		}
+		return setting, c.Side, c.Envelope
+	})
+}
+
+// knownSig: the signature of a finding that lives in the read chain, whatever made the setting.
+func knownSig(class, layer string) string {
+	if layer == "config" {
+		layer = "component"
+	}
+	return class + ":" + layer
+}
+
+// checkMasked runs the masking encryptor and the read chain with the setting that source supplies for the
+// resolved window, and judges them by what the configuration means: side and envelope as source reports them,
+// pattern and window of the case. A nil setting ends the case (source has recorded why).
+func checkMasked(c Case, layer string, source func(vs *hx.Vs, window int) (config.ColumnEncryptionSetting, string, string)) (vs hx.Vs, nontrivial bool, classes []string) {
 	w := fix.TheWorld()
 	value, vcl, err := render(w, c.Value, c.Pattern)
 	if err != nil {
@@ -435,12 +457,12 @@ func CheckComponent(c Case) (vs hx.Vs, nontrivial bool, classes []string) {
 		return vs, false, []string{"value:empty"}
 	}
 	window := c.Win.resolve(len(value))
-	setting, err := maskSetting(c.Pattern, window, c.Side, c.Envelope)
-	if err != nil {
-		vs.Add("harness:setting", "%v", err)
-		return
+	setting, side, envelope := source(&vs, window)
+	if setting == nil {
+		return vs, false, append(vcl, "layer:"+layer)
 	}
-	classes = append(vcl, "side:"+c.Side, "envelope:"+c.Envelope, winClass(window, len(value)), "reader:"+c.Reader, patternClass(c.Pattern), "layer:component")
+	c.Side, c.Envelope = side, envelope
+	classes = append(vcl, "side:"+c.Side, "envelope:"+c.Envelope, winClass(window, len(value)), "reader:"+c.Reader, patternClass(c.Pattern), "layer:"+layer)
 	classes = append(classes, fmt.Sprintf("%s/%s/%s/%s", c.Side, c.Envelope, winClass(window, len(value)), c.Reader))
 	win, hidden := split(value, window, c.Side)
 	if window == len(value)-1 {
@@ -462,10 +484,10 @@ func CheckComponent(c Case) (vs hx.Vs, nontrivial bool, classes []string) {
 		return
 	}
 	if eerr != nil {
-		vs.Add("encrypt-error:component", "masking encryptor failed on a %d-byte value: %v", len(value), eerr)
+		vs.Add("encrypt-error:"+layer, "masking encryptor failed on a %d-byte value: %v", len(value), eerr)
 		return
 	}
-	env, passthrough, ok := storedForm(&vs, w, "component", value, stored, window, c.Side, c.Envelope)
+	env, passthrough, ok := storedForm(&vs, w, layer, value, stored, window, c.Side, c.Envelope)
 	if !ok {
 		return
 	}
@@ -489,7 +511,7 @@ func CheckComponent(c Case) (vs hx.Vs, nontrivial bool, classes []string) {
 		return
 	}
 	if rerr != nil {
-		vs.Add("read-error:component", "read chain failed for %s: %v", c.Reader, rerr)
+		vs.Add("read-error:"+layer, "read chain failed for %s: %v", c.Reader, rerr)
 		return
 	}
 	if c.Reader == "alice" {
@@ -497,9 +519,9 @@ func CheckComponent(c Case) (vs hx.Vs, nontrivial bool, classes []string) {
 			return // what an application-side envelope reveals to is C01's matter
 		}
 		if !bytes.Equal(out, value) && inWindow {
-			addKnown(&vs, "window-envelope-masked:component", "owner wrote %d bytes and got %d bytes back: an envelope-shaped piece starts inside the clear window (window %d, side %s, pattern %q)", len(value), len(out), window, c.Side, c.Pattern)
+			addKnown(&vs, knownSig("window-envelope-masked", layer), "owner wrote %d bytes and got %d bytes back: an envelope-shaped piece starts inside the clear window (window %d, side %s, pattern %q)", len(value), len(out), window, c.Side, c.Pattern)
 		} else if !bytes.Equal(out, value) {
-			vs.Add("owner-read-differs:component", "owner got %d bytes %.40x, wrote %d bytes %.40x (window %d, side %s)", len(out), out, len(value), value, window, c.Side)
+			vs.Add("owner-read-differs:"+layer, "owner got %d bytes %.40x, wrote %d bytes %.40x (window %d, side %s)", len(out), out, len(value), value, window, c.Side)
 		}
 		return
 	}
@@ -515,20 +537,20 @@ func CheckComponent(c Case) (vs hx.Vs, nontrivial bool, classes []string) {
 		// what it reveals can share 4 bytes with the hidden part (markers share a prefix), so that class is
 		// left to the exact comparison of the known-finding branch below
 		if at, found := leak(out, hidden, append(append([]byte{}, want...), env...), 4); found {
-			vs.Add("hidden-plaintext-leaked:component", "%s received 4 bytes of the hidden part (offset %d of %d): output %.60q", c.Reader, at, len(hidden), out)
+			vs.Add("hidden-plaintext-leaked:"+layer, "%s received 4 bytes of the hidden part (offset %d of %d): output %.60q", c.Reader, at, len(hidden), out)
 		}
 	}
 	if env != nil {
 		if at, found := leak(out, env, want, 8); found && inWindow {
-			addKnown(&vs, "window-envelope-masked:component", "%s received 8 bytes of the stored envelope (offset %d of %d): an envelope-shaped piece starts inside the clear window (window %d, side %s, pattern %q)", c.Reader, at, len(env), window, c.Side, c.Pattern)
+			addKnown(&vs, knownSig("window-envelope-masked", layer), "%s received 8 bytes of the stored envelope (offset %d of %d): an envelope-shaped piece starts inside the clear window (window %d, side %s, pattern %q)", c.Reader, at, len(env), window, c.Side, c.Pattern)
 		} else if found {
-			vs.Add("ciphertext-leaked:component", "%s received 8 bytes of the stored envelope (offset %d of %d)", c.Reader, at, len(env))
+			vs.Add("ciphertext-leaked:"+layer, "%s received 8 bytes of the stored envelope (offset %d of %d)", c.Reader, at, len(env))
 		}
 	}
 	if !bytes.Equal(out, want) && inWindow {
-		addKnown(&vs, "window-envelope-masked:component", "%s got %d bytes, window||pattern has %d: an envelope-shaped piece starts inside the clear window (window %d, side %s, pattern %q)", c.Reader, len(out), len(want), window, c.Side, c.Pattern)
+		addKnown(&vs, knownSig("window-envelope-masked", layer), "%s got %d bytes, window||pattern has %d: an envelope-shaped piece starts inside the clear window (window %d, side %s, pattern %q)", c.Reader, len(out), len(want), window, c.Side, c.Pattern)
 	} else if !bytes.Equal(out, want) {
-		vs.Add("masked-read-differs:component", "%s got %d bytes %.60q, want window||pattern = %d bytes %.60q (window %d of %d, side %s)", c.Reader, len(out), out, len(want), want, window, len(value), c.Side)
+		vs.Add("masked-read-differs:"+layer, "%s got %d bytes %.60q, want window||pattern = %d bytes %.60q (window %d of %d, side %s)", c.Reader, len(out), out, len(want), want, window, len(value), c.Side)
 	}
 	return
 }
@@ -615,6 +637,14 @@ func TestReplay(t *testing.T) {
 				return hx.Vs{{Sig: "harness:decode", Msg: err.Error()}}
 			}
 			vs, _, _ := CheckComponent(c)
+			return vs
+		},
+		"TestMaskConfig": func(raw json.RawMessage) hx.Vs {
+			var c ConfCase
+			if err := json.Unmarshal(raw, &c); err != nil {
+				return hx.Vs{{Sig: "harness:decode", Msg: err.Error()}}
+			}
+			vs, _, _ := CheckConfig(c)
 			return vs
 		},
 		"TestMaskSessionsMySQL": func(raw json.RawMessage) hx.Vs {
